@@ -1,18 +1,19 @@
 // C20 — text analysis, chunking and context assembly are total and bounded.
 //
 // Exhaustive over bounded inputs:
-//  * every string of length <= L over {a, b, ' ', '\n', '.', '#', 'é', '中', 0xFF (invalid UTF-8),
-//    'A'} and every concatenation of <= 3 fragments of a separator-like vocabulary go through
-//    Tokenize, both stemmers' Analyze, Compress (english / italian) — no panic, same output on a
-//    second call, negations and connectives of the documented list survive compression;
-//  * the same strings x every built-in splitting strategy x chunk size x overlap go through
-//    SplitText: no panic, deterministic, every chunk <= size + overlap runes, and the chunks put
-//    back together (whitespace ignored, overlap repeats allowed) give the input's non-whitespace
-//    content;
-//  * adaptive retrieval over a stub store: every directed graph on 3 nodes x 2 relations (cycles,
-//    hubs, self loops) x seeds x budgets x depths x node caps x strategies x weight sets —
-//    terminates, token count (reported and recomputed) <= budget, every returned chunk within the
-//    depth limit (reference BFS), no relation lookup after the node cap was reached.
+//   - every string of length <= L over {a, b, ' ', '\n', '.', '#', 'é', '中', 0xFF (invalid UTF-8),
+//     'A'} and every concatenation of <= 3 fragments of a separator-like vocabulary go through
+//     Tokenize, both stemmers' Analyze, Compress (english / italian) — no panic, same output on a
+//     second call, negations and connectives of the documented list survive compression;
+//   - the same strings x every built-in splitting strategy x chunk size x overlap go through
+//     SplitText: no panic, deterministic, every chunk <= size + overlap runes, and the chunks put
+//     back together (whitespace ignored, overlap repeats allowed) give the input's non-whitespace
+//     content;
+//   - adaptive retrieval over a stub store: every directed graph on 3 nodes x 2 relations (cycles,
+//     hubs, self loops) x seeds x budgets x depths x node caps x strategies x weight sets —
+//     terminates, token count (reported and recomputed) <= budget, every returned chunk within the
+//     depth limit (reference BFS), no relation lookup after the node cap was reached.
+//
 // Every call runs under an explicit horizon (watchdog).
 package c20
 
@@ -124,6 +125,70 @@ func splitConfigs(thorough bool) []splitCfg {
 		}
 	}
 	return out
+}
+
+// wordPart: the analyzers' stemmers branch on letters (suffix tables, qu/gu handling, accents), so
+// besides the structural alphabet above every word of length <= wl over a letter alphabet that
+// covers those tables is analysed in both languages, alone and embedded in a sentence: no panic,
+// deterministic, and no token longer than the word it came from plus a small constant.
+func wordPart(c *vk.Ctx, en, it textanalyzer.Analyzer) {
+	letters := []string{"a", "e", "i", "o", "u", "q", "g", "c", "h", "s", "t", "r", "n", "m", "l", "z", "y", "d", "è", "à", "1", "'"}
+	wl := 4
+	if c.Thorough() {
+		wl = 5
+	}
+	var n int64
+	for l := 1; l <= wl; l++ {
+		idx := make([]int, l)
+		for {
+			if c.Mine() {
+				var b strings.Builder
+				for _, j := range idx {
+					b.WriteString(letters[j])
+				}
+				w := b.String()
+				n++
+				if n%20000 == 1 {
+					c.Sample("word:" + w)
+				}
+				for _, in := range []string{w, "la " + w + " è", strings.ToUpper(w)} {
+					var e1, i1, e2, i2 []string
+					if p := safely(func() {
+						e1, i1 = en.Analyze(in), it.Analyze(in)
+						e2, i2 = en.Analyze(in), it.Analyze(in)
+					}); p != "" {
+						c.Violate("C20 panic in text analysis (word enumeration)", fmt.Sprintf("input %q: %s", in, p), map[string]any{"property": "C20", "harness": "c20", "part": "word", "input": fmt.Sprintf("%x", in)})
+						continue
+					}
+					if strings.Join(e1, "\x00") != strings.Join(e2, "\x00") || strings.Join(i1, "\x00") != strings.Join(i2, "\x00") {
+						c.Violate("C20 non-deterministic text analysis", fmt.Sprintf("input %q", in), map[string]any{"property": "C20", "harness": "c20", "part": "word"})
+					}
+					for _, tok := range append(append([]string(nil), e1...), i1...) {
+						if len(tok) > len(in)+4 {
+							c.Violate("C20 token longer than its input", fmt.Sprintf("input %q token %q", in, tok), map[string]any{"property": "C20", "harness": "c20", "part": "word"})
+						}
+					}
+				}
+			}
+			p := l - 1
+			for p >= 0 {
+				idx[p]++
+				if idx[p] < len(letters) {
+					break
+				}
+				idx[p] = 0
+				p--
+			}
+			if p < 0 {
+				break
+			}
+		}
+		if c.TimeUp() {
+			break
+		}
+	}
+	c.Eval(n * 6)
+	c.Count("words_analysed", n)
 }
 
 func checkText(c *vk.Ctx, s string, cfgs []splitCfg, en, it textanalyzer.Analyzer, n *int64) {
@@ -285,76 +350,84 @@ func retrievalPart(c *vk.Ctx) {
 		}
 		c.State(1)
 		c.DistinctKey(fmt.Sprint("graph", code))
+		// content variants: every node has data / n1 is a data-less node (an entity id without a
+		// vector, a deleted chunk): it is discovered and counts as visited, but VGet fails for it
+		variants := []map[string]string{contents}
+		if code < 1<<9 {
+			variants = append(variants, map[string]string{"n0": contents["n0"], "n2": contents["n2"]})
+		}
 		for _, seeds := range [][]string{{"n0"}, {"n1", "n2"}, {"n2", "ghost"}} {
-			for _, rc := range cfgs {
-				n++
-				st := &stub{nodes: nodes, content: contents, rel: rel, seeds: seeds, distinct: map[string]bool{}}
-				cfg := rag.AdaptiveContextConfig{MaxTokens: rc.budget, CharsPerToken: 4, ExpansionStrategy: rc.strategy,
-					GraphExpansionDepth: rc.depth, MaxExpansionNodes: rc.cap, GraphRelations: []string{"next", "mentions"},
-					SemanticWeight: rc.w[0], GraphWeight: rc.w[1], DensityWeight: rc.w[2]}
-				label := fmt.Sprintf("retrieve graph=%d seeds=%v cfg=%+v", code, seeds, rc)
-				c.Guard(label)
-				var cw *rag.ContextWindow
-				var err error
-				if p := safely(func() {
-					cw, err = rag.NewAdaptiveRetriever(st, cfg).RetrieveWithContext("i", []float32{1}, 3)
-				}); p != "" {
-					c.Violate("C20 panic in adaptive retrieval strategy="+rc.strategy, label+": "+p, map[string]any{"property": "C20", "part": "retrieval", "case": label})
-					continue
-				}
-				if err != nil || cw == nil {
-					continue
-				}
-				// budget
-				tokens := 0
-				for _, ch := range cw.Chunks {
-					ct, _ := ch.Metadata["content"].(string)
-					tokens += int(float64(len(ct)) / 4)
-				}
-				if cw.TotalTokens > rc.budget || tokens > rc.budget {
-					c.Violate("C20 context above token budget strategy="+rc.strategy, fmt.Sprintf("%s: reported %d recomputed %d budget %d", label, cw.TotalTokens, tokens, rc.budget), map[string]any{"property": "C20", "part": "retrieval", "case": label})
-				}
-				// depth limit (reference BFS over allowed relations from the seeds)
-				limit := rc.depth
-				if limit == 0 {
-					limit = 2
-				}
-				if rc.strategy == "greedy" || rc.strategy == "density" {
-					limit = 1
-				}
-				dist := map[string]int{}
-				q := []string{}
-				for _, s := range seeds {
-					dist[s] = 0
-					q = append(q, s)
-				}
-				for len(q) > 0 {
-					cur := q[0]
-					q = q[1:]
-					for _, ts := range rel[cur] {
-						for _, t := range ts {
-							if _, ok := dist[t]; !ok {
-								dist[t] = dist[cur] + 1
-								q = append(q, t)
+			for _, contents := range variants {
+				for _, rc := range cfgs {
+					n++
+					st := &stub{nodes: nodes, content: contents, rel: rel, seeds: seeds, distinct: map[string]bool{}}
+					cfg := rag.AdaptiveContextConfig{MaxTokens: rc.budget, CharsPerToken: 4, ExpansionStrategy: rc.strategy,
+						GraphExpansionDepth: rc.depth, MaxExpansionNodes: rc.cap, GraphRelations: []string{"next", "mentions"},
+						SemanticWeight: rc.w[0], GraphWeight: rc.w[1], DensityWeight: rc.w[2]}
+					label := fmt.Sprintf("retrieve graph=%d seeds=%v cfg=%+v", code, seeds, rc)
+					c.Guard(label)
+					var cw *rag.ContextWindow
+					var err error
+					if p := safely(func() {
+						cw, err = rag.NewAdaptiveRetriever(st, cfg).RetrieveWithContext("i", []float32{1}, 3)
+					}); p != "" {
+						c.Violate("C20 panic in adaptive retrieval strategy="+rc.strategy, label+": "+p, map[string]any{"property": "C20", "part": "retrieval", "case": label})
+						continue
+					}
+					if err != nil || cw == nil {
+						continue
+					}
+					// budget
+					tokens := 0
+					for _, ch := range cw.Chunks {
+						ct, _ := ch.Metadata["content"].(string)
+						tokens += int(float64(len(ct)) / 4)
+					}
+					if cw.TotalTokens > rc.budget || tokens > rc.budget {
+						c.Violate("C20 context above token budget strategy="+rc.strategy, fmt.Sprintf("%s: reported %d recomputed %d budget %d", label, cw.TotalTokens, tokens, rc.budget), map[string]any{"property": "C20", "part": "retrieval", "case": label})
+					}
+					// depth limit (reference BFS over allowed relations from the seeds)
+					limit := rc.depth
+					if limit == 0 {
+						limit = 2
+					}
+					if rc.strategy == "greedy" || rc.strategy == "density" {
+						limit = 1
+					}
+					dist := map[string]int{}
+					q := []string{}
+					for _, s := range seeds {
+						dist[s] = 0
+						q = append(q, s)
+					}
+					for len(q) > 0 {
+						cur := q[0]
+						q = q[1:]
+						for _, ts := range rel[cur] {
+							for _, t := range ts {
+								if _, ok := dist[t]; !ok {
+									dist[t] = dist[cur] + 1
+									q = append(q, t)
+								}
 							}
 						}
 					}
-				}
-				for _, ch := range cw.Chunks {
-					if d, ok := dist[ch.ID]; !ok || d > limit {
-						c.Violate("C20 chunk beyond depth limit strategy="+rc.strategy, fmt.Sprintf("%s: chunk %s at distance %d (limit %d)", label, ch.ID, d, limit), map[string]any{"property": "C20", "part": "retrieval", "case": label})
+					for _, ch := range cw.Chunks {
+						if d, ok := dist[ch.ID]; !ok || d > limit {
+							c.Violate("C20 chunk beyond depth limit strategy="+rc.strategy, fmt.Sprintf("%s: chunk %s at distance %d (limit %d)", label, ch.ID, d, limit), map[string]any{"property": "C20", "part": "retrieval", "case": label})
+						}
 					}
-				}
-				// node cap: no relation lookup once the cap was reached (graph strategy)
-				if rc.strategy == "graph" || rc.strategy == "bogus" {
-					for _, l := range st.log {
-						if strings.HasPrefix(l, "rel:") {
-							var id string
-							var seen int
-							fmt.Sscanf(strings.Replace(l[4:], "@", " ", 1), "%s %d", &id, &seen)
-							if seen >= rc.cap && seen > len(seeds) {
-								c.Violate("C20 expansion continued after the node cap", fmt.Sprintf("%s: relations of %s looked up with %d nodes already visited (cap %d)", label, id, seen, rc.cap), map[string]any{"property": "C20", "part": "retrieval", "case": label})
-								break
+					// node cap: no relation lookup once the cap was reached (graph strategy)
+					if rc.strategy == "graph" || rc.strategy == "bogus" {
+						for _, l := range st.log {
+							if strings.HasPrefix(l, "rel:") {
+								var id string
+								var seen int
+								fmt.Sscanf(strings.Replace(l[4:], "@", " ", 1), "%s %d", &id, &seen)
+								if seen >= rc.cap && seen > len(seeds) {
+									c.Violate("C20 expansion continued after the node cap", fmt.Sprintf("%s: relations of %s looked up with %d nodes already visited (cap %d)", label, id, seen, rc.cap), map[string]any{"property": "C20", "part": "retrieval", "case": label})
+									break
+								}
 							}
 						}
 					}
@@ -441,5 +514,6 @@ func run(c *vk.Ctx) {
 	c.Count("strings", cases)
 	c.F.Extra["max_string_len"] = maxLen
 	c.F.Extra["split_configs"] = len(cfgs)
+	wordPart(c, en, it)
 	retrievalPart(c)
 }
